@@ -36,6 +36,14 @@ def xver(cq, ct):
     return {"name": "S-enc/S-dec:cross-version families", Q: ["xver", "--cases", str(cq)], T: ["xver", "--cases", str(ct), "--size", "30"], "seeds_t": 4}
 
 
+def schemas(cq, ct):
+    return {"name": "S-schemawire/S-diff", Q: ["schemas", "--cases", str(cq)], T: ["schemas", "--cases", str(ct)], "seeds_t": 4}
+
+
+def xtype(cq, ct):
+    return {"name": "S-diff:cross-type loads", Q: ["xtype", "--cases", str(cq)], T: ["xtype", "--cases", str(ct)], "seeds_t": 4}
+
+
 def files(cq, ct):
     return {"name": "S-container:files", Q: ["files", "--cases", str(cq)], T: ["files", "--cases", str(ct), "--size", "30"], "seeds_t": 3}
 
@@ -75,10 +83,22 @@ PROPS = {
         "suites": [PACKED, bulk(4, 20), codec(6, 30)],
         "oracle": ["C04"],
     },
+    "C05": {
+        "module": "Sfv.Props.C05",
+        "tables": ["tables_header", "tables_schema_tags"],
+        "suites": [xtype(6, 40), schemas(3, 12), files(1, 4)],
+        "oracle": ["C05"],
+    },
+    "C13": {
+        "module": "Sfv.Props.C13",
+        "tables": ["tables_schema_tags", "tables_header"],
+        "suites": [schemas(4, 20)],
+        "oracle": ["C13"],
+    },
     "C06": {
         "module": "Sfv.Props.C06",
         "tables": ["tables_limits", "tables_prim_packed"],
-        "suites": [malformed(6, 30), PACKED],
+        "suites": [malformed(6, 30), PACKED, schemas(2, 10)],
         "oracle": ["C06"],
     },
     "C07": {
